@@ -222,6 +222,165 @@ def history_workload(ops, rng, n, depth=12):
         ops.reparse(1)
 
 
+GROWERS = [
+    # results that grow relative to the input, placed at every exit of the parser
+    'http://h/?"""" ', 'http://h/?\'\'\'\'', 'http://h?""', 'http://h#   ', 'http://h/#"<>`', 'http://h/ a b c',
+    'http://h/{}{}{}', 'http://u"<>:p @h/', 'http://"""@h', 'http://h', 'ws://h?q', 'http://h\\a\\b', 'a://h/"', 'a:/p?"\'',
+    'a:x y z#"', 'a:\x01\x02\x03', 'a://h\x7f/', 'http://0x7f.1/', 'http://1/', 'http://0x1', 'http://017700000001',
+    'http://[0:0:0:0:0:0:0:1]/', 'http://[1::1.2.3.4]', 'http://%41%42%43/', 'file:c|/x', 'file:///x/../../y', 'http://h:80/',
+    'http://h:00000080/', 'http://h:0000008080', 'http://H\u00e9/', 'http://\u3300.\u3300/', 'http://\uff21\uff21/', 'http://\u00df/',
+    'x', '?"""', '#\x01\x02', '/{}', '//h2?"', '..', './"', '\\\\h3\\"', 'C|/"', '', '  x  ', 'blob:"x"', 'a:"#"', 'a: ?x', 'a:  #x',
+    'http://h/\u00e9\u00e9\u00e9', 'http://h/?\u00e9', 'http://h/#\U0001F600', 'ftp://h/a/./b/../c', 'http://h/%7e%7E', 'wss://h:443/x',
+]
+
+
+def limit_workload(ops, rng, n):
+    """C09 / C08: every operation under every limit of a window around the sizes involved."""
+    for i in range(n):
+        ops.reset()
+        r = rng.random()
+        base = rng.choice(BASES)
+        if r < 0.45:
+            inp = rng.choice(GROWERS)
+            if rng.random() < 0.3:
+                inp = pad(rng, inp, rng.choice(LENS))
+        elif r < 0.7:
+            inp = gen_absolute(rng)
+        elif r < 0.8:
+            inp = gen_fastpath(rng)
+        else:
+            inp = rng.choice(RELS)
+            if base is None:
+                base = rng.choice(BASES[1:])
+        if len(inp.encode()) > 80:
+            inp = inp[:60]
+        if base is not None:
+            ops.parse(1, 0, base)
+            ops.parse_window(2, 1, inp)
+        else:
+            ops.parse_window(2, 0, inp)
+        # a short history under limit windows
+        for j in range(rng.choice([0, 1, 2, 3])):
+            op = rng.choice(SETTERS[:10])
+            v = rng.choice(VALUES[op] + GROWERS[:12])
+            if op != 'href' and rng.random() < 0.3:
+                v = rng.choice(['"""', ' a b ', '\u00e9\u00e9', '{}{}', "'''", 'x' * rng.choice([1, 5, 20]), '%41%42', ''])
+            if len(v.encode()) > 80:
+                v = v[:60]
+            ops.set_window(2, op, v)
+
+
+def utf8_unit(b):
+    """the shortest valid UTF-8 string that contains byte value b, or None (C0 C1 F5..FF)"""
+    if b < 0x80:
+        return bytes([b])
+    if 0x80 <= b <= 0xBF:
+        return bytes([0xC2, b])
+    if 0xC2 <= b <= 0xDF:
+        return bytes([b, 0x80])
+    if b == 0xE0:
+        return bytes([b, 0xA0, 0x80])
+    if 0xE1 <= b <= 0xEF:
+        return bytes([b, 0x80, 0x80])
+    if b == 0xF0:
+        return bytes([b, 0x90, 0x80, 0x80])
+    if 0xF1 <= b <= 0xF4:
+        return bytes([b, 0x80, 0x80, 0x80])
+    return None
+
+
+def pct_workload(ops, rng, n):
+    """C11, exhaustive: every byte value that can occur in valid UTF-8 x every URL component
+    that uses a percent-encode set x 4 contexts (alone; middle of a 40-byte run; at index 7 / 8
+    of an 8-byte block; on an otherwise fast-path-eligible URL)."""
+    for b in range(256):
+        u = utf8_unit(b)
+        if u is None:
+            continue
+        ctxs = [u, b'x' * 20 + u + b'y' * 20, b'abcdefg' + u + b'h', b'abcdefgh' + u]
+        ops.reset()
+        ops.parse(1, 0, 'http://h/')
+        ops.parse(2, 0, 'a://h/')
+        ops.parse(3, 0, 'file:///')
+        for c in ctxs:
+            # userinfo set
+            ops.set(1, 'username', c)
+            ops.set(1, 'password', c)
+            ops.set(2, 'username', c)
+            ops.parse(4, 0, b'http://' + c + b'@h/')
+            ops.parse(4, 0, b'a://u:' + c + b'@h/')
+            # path set (special, file, non-special)
+            ops.set(1, 'pathname', b'/' + c)
+            ops.set(2, 'pathname', b'/' + c)
+            ops.set(3, 'pathname', b'/' + c)
+            ops.parse(4, 0, b'https://example.com/' + c)
+            ops.parse(4, 0, b'a://h/' + c)
+            ops.parse(4, 0, b'file:///' + c)
+            # query (non-special) and special-query sets
+            ops.set(1, 'search', c)
+            ops.set(2, 'search', c)
+            ops.parse(4, 0, b'https://example.com/p?' + c)
+            ops.parse(4, 0, b'a://h/p?' + c)
+            # fragment set
+            ops.set(1, 'hash', c)
+            ops.parse(4, 0, b'https://example.com/p#' + c)
+            ops.parse(4, 0, b'a:p#' + c)
+            # C0 control set: opaque path and opaque host
+            ops.parse(4, 0, b'a:' + c)
+            ops.parse(4, 0, b'a://' + c + b'/')
+        # malformed escapes stay literal; decoding in hosts
+        for esc in (b'%', b'%4', b'%zz', b'%4g', b'%%41', b'%41', b'%7e', b'%7E'):
+            ops.parse(4, 0, b'http://h/' + esc + u)
+            ops.parse(4, 0, b'http://h/' + u + esc)
+            ops.set(1, 'search', esc + u)
+        if b < 0x80:
+            ops.parse(4, 0, b'http://a%' + ('%02x' % b).encode() + b'b/')
+            ops.parse(4, 0, b'http://a%' + ('%02X' % b).encode() + b'/')
+
+
+def canparse_workload(ops, rng, n):
+    """C08: aimed at can_parse's own fast path (a second implementation of 'absolute special URL
+    with a plain host'): scheme case mixes, colon position, slashes, decimal/hex/octal hosts,
+    xn-- labels, ports, '[', '@', '%', non-ASCII, C0 trimming -- with and without base, and under
+    limit windows."""
+    schemes = ['http', 'https', 'ws', 'wss', 'ftp', 'file', 'HTTP', 'hTTps', 'Ws', 'WSS', 'FTP', 'htt', 'httpx', 'a', 'h', 'blob']
+    seps = ['://', ':/', ':', ':///', ':\\\\', ':/\\', ':\\/', '//', '', ':////', ' ://', ':\t//', ':/\n/']
+    hosts = ['h', 'example.com', 'EXAMPLE.com', '1.2.3.4', '1.2.3', '1.2.3.4.5', '500.1.1.1', '1.2.3.500', '.', '..', '1.', '1..2', '.1', '0x1', '0x', '0x1.2',
+             '1.0x', '017', '08', '1.08', '0x7f.1', '4294967295', '4294967296', '1.2.3.4.', '1.2.3.4..', 'a.1', '1.a', '1-2', '1_2', 'xn--a', 'a.xn--b', 'XN--a',
+             'axn--b', 'xn-', '[::1]', '[::1', '::1]', '[1.2.3.4]', '[::ffff:1.2.3.4]', 'u@h', 'u:p@h', '@h', 'u@', 'h%41', '%', 'h%', 'h%zz', 'é', 'aé',
+             'a b', 'a<b', 'a^b', 'a|b', 'a\\b', 'a?b', 'a#b', '', 'a..b', 'x' * 63, 'x' * 64, '1' * 20, '0' * 10 + '1', '127.0.0.1', '127.0.0.256', '0.0.0.0',
+             '255.255.255.255', '256.255.255.255', '1.2.3.04', '00.00.00.00', '1.2.3.4a', 'a1.2.3.4', '1.2.3.-4', '1.2.3.+4', '1 .2.3.4', '１.2.3.4']
+    ports = ['', '', '', ':', ':0', ':1', ':80', ':443', ':21', ':8080', ':65535', ':65536', ':99999', ':100000', ':000080', ':0000065535', ':00000000000000000080',
+             ':8a', ':a', ':-1', ':8\t0', ':80\n', ': 80', ':80 ', ':80:', ':80@', ':4294967376']
+    tails = ['', '/', '/p', '/p?q', '/p#f', '?q', '#f', '/a b', '/é', '\\p', '/..', '/%2e', '/"', "?'", '#`', '/' + 'x' * 20]
+    for i in range(n):
+        s = rng.choice(schemes) + rng.choice(seps) + rng.choice(hosts) + rng.choice(ports) + rng.choice(tails)
+        if rng.random() < 0.15:
+            s = rng.choice(WS) + s + rng.choice(WS)
+        if rng.random() < 0.1:
+            s = mutate_byte(rng, s)
+        base = rng.choice(BASES) if rng.random() < 0.3 else None
+        ops.reset()
+        r = rng.random()
+        if r < 0.6:
+            if base is not None:
+                ops.canparse(s, base)
+                ops.parse(1, 0, base)
+                ops.parse(2, 1, s)
+            else:
+                ops.canparse(s)
+                ops.parse(2, 0, s)
+        else:
+            if base is not None:
+                ops.parse(1, 0, base)
+                ops.parse_window(2, 1, s)
+            else:
+                ops.parse_window(2, 0, s)
+        if rng.random() < 0.1:
+            # an invalid base string
+            ops.canparse(s, rng.choice(['', 'x', '//h', 'http://', 'http://a b/', 'a', ':', 'http://h:99999/']))
+
+
 def main():
     kind, seed, n, outp = sys.argv[1], int(sys.argv[2]), int(sys.argv[3]), sys.argv[4]
     rng = random.Random(seed)
